@@ -532,6 +532,7 @@ def absStep (op : String) (f : List Text) : Option String :=
     | some tree =>
       if eco == "crates".toList then some (" ".intercalate ((C04.normToml (C04.absToml text tree)).map atableStr))
       else if eco == "pypi".toList then some (" ".intercalate ((C04.normPy (C04.absPy text tree)).map ptableStr))
+      else if eco == "jsr".toList then some (match C04.absRootC text tree with | some a => ajsonStr a | none => "-")
       else some (match C04.absRoot text tree with | some a => ajsonStr a | none => "-")
   | _, _ => none
 
